@@ -213,7 +213,7 @@ def evaluate(ctx, r, lines, n_exported, killed, conc):
     for c in lines[:2] + [c for c in lines if c["fam"] == "long"][:1] + [c for c in lines if c["fam"] == "conc"][:1]:
         ctx.sample(c)
     ctx.assumptions += [
-        "the body is what the transport delivers before io.EOF; a non-EOF reader error means the body is incomplete (no 200 demanded then, lines not compared)",
+        "the body is what the transport delivers before io.EOF; a non-EOF reader error means the body is incomplete (a 200 is a violation then; the lines handed over before the error are not judged)",
         "lines are split on \\n only (\\r is an ordinary byte); empty lines are events (the pipeline's admission refuses them later)",
         "concurrent requests are attributed to bodies by disjoint alphabets; empty events only by their total number",
         "HTTP/1.1 framing (chunked transfer, Content-Length) is net/http's business: the harness starts at ServeHTTP",
